@@ -17,6 +17,9 @@ class JaxPrinter(GotranPythonCodePrinter):
 
 
 class JaxCodeGenerator(PythonCodeGenerator):
+    # values[i] is printed as the local variable _values_i
+    reserved_pattern = r"^_values_\d+$"
+
     def __init__(self, *args, **kwargs) -> None:
         super().__init__(*args, **kwargs)
 
